@@ -147,6 +147,25 @@ def run_history(job):
             bad("handed-on", last, final, got, part)
     except Exception as ex:      # noqa
         probs.append(("gather:raises-handed-on:%s:%s" % (type(ex).__name__, shape), "chain over %r raised %r" % (texts, ex)))
+    # (3b) known definitions handed in as a DefinitionDict OBJECT: the gatherer works on its own copy - the caller's dictionary of
+    # declared definitions is what it was (no recovered definition is written into it), and the outcome is the same
+    try:
+        from hed.models.definition_dict import DefinitionDict
+        mine = DefinitionDict("(Definition/Zzdecl, (Blue))", _G["schema"])
+        before = {k: str(v.contents) for k, v in mine.defs.items()}
+        g4 = DefExpandGatherer(_G["schema"], known_defs=mine)
+        g4.process_def_expands(list(texts))
+        after = {k: str(v.contents) for k, v in mine.defs.items()}
+        if after != before:
+            probs.append(("gather:callers-dictionary-changed:%s" % shape,
+                          "gathering from %r with known_defs=<DefinitionDict %s> left the caller's dictionary as %s" % (texts, before, after)))
+        got = project(g4, names, k)
+        got["extra"] = [x for x in got["extra"] if x != "zzdecl"]
+        part = diff(final, got)
+        if part:
+            bad("with-known-dictionary", last, final, got, part)
+    except Exception as ex:      # noqa
+        probs.append(("gather:raises-known-dictionary:%s:%s" % (type(ex).__name__, shape), "gathering %r with a known dictionary raised %r" % (texts, ex)))
     # (4) what is known reproduces, by the library's own expansion, every instance that was consistent with it
     try:
         from hed.models.hed_string import HedString
